@@ -40,12 +40,13 @@ type realepReq struct {
 	probe bool
 }
 
+type realepConnKey struct{}
+
 type realepSrv struct {
 	mu    sync.Mutex
 	down  map[string]bool
 	kill  int
 	reqs  []realepReq
-	conns []net.Conn
 	ts    *httptest.Server
 	ip    string
 }
@@ -68,14 +69,11 @@ func (s *realepSrv) handler(w http.ResponseWriter, r *http.Request) {
 		s.kill--
 		kill = true
 	}
-	var conns []net.Conn
-	if kill {
-		conns, s.conns = s.conns, nil
-	}
 	s.mu.Unlock()
 	switch {
 	case kill:
-		for _, c := range conns {
+		// close the connection THIS request came in on (other resolvers' connections stay)
+		if c, ok := r.Context().Value(realepConnKey{}).(net.Conn); ok {
 			c.Close()
 		}
 		return
@@ -114,12 +112,8 @@ func startRealep(dir string) (*realepSrv, error) {
 	ts.Listener.Close()
 	ts.Listener = l
 	ts.EnableHTTP2 = true
-	ts.Config.ConnState = func(c net.Conn, st http.ConnState) {
-		if st == http.StateNew {
-			s.mu.Lock()
-			s.conns = append(s.conns, c)
-			s.mu.Unlock()
-		}
+	ts.Config.ConnContext = func(ctx context.Context, c net.Conn) context.Context {
+		return context.WithValue(ctx, realepConnKey{}, c)
 	}
 	ts.StartTLS()
 	s.ts = ts
